@@ -32,76 +32,82 @@ class BLOB:
         return self.size
 
 
+_SEXAGESIMAL_FORMAT = re.compile(r"^%(\d*)\.(\d+)m$")
+
+# fraction field length of a %w.fm format -> number of units per degree
+_SEXAGESIMAL_UNITS = {3: 60, 5: 600, 6: 3600, 8: 36000, 9: 360000}
+
+_NUMBER_FIELD = r"(?:[0-9]+\.?[0-9]*|\.[0-9]+)"
+
+# [sign] degrees sep minutes [sep seconds], sep is ':', ';' or blank
+_SEXAGESIMAL_NUMBER = re.compile(
+    rf"^\s*([-+]?)\s*({_NUMBER_FIELD})\s*[:; ]\s*({_NUMBER_FIELD})"
+    rf"(?:\s*[:; ]\s*({_NUMBER_FIELD}))?\s*$"
+)
+
+
 def str_to_num(s: str, fmt: str) -> Any[float, int]:
     if s is None:
         return None
     if not isinstance(s, str):
         s = str(s)
 
-    sexagesimal_match = re.match(r"^%(\d*)\.(\d+)m$", fmt)
+    sexagesimal_match = _SEXAGESIMAL_FORMAT.match(fmt)
     if sexagesimal_match:
         fraction_length = int(sexagesimal_match.groups()[1])
-        assert fraction_length in (
-            3,
-            5,
-            6,
-            8,
-            9,
+        assert (
+            fraction_length in _SEXAGESIMAL_UNITS
         ), f"Invalid sexagesimal number format: {fmt}"
 
-        regexps = {
-            3: r"^(\-?\d+)[:; ](\d{2})$",
-            5: r"^(\-?\d+)[:; ](\d{2}\.\d+)$",
-            6: r"^(\-?\d+)[:; ](\d{2})[:; ](\d{2})$",
-            8: r"^(\-?\d+)[:; ](\d{2})[:; ](\d{2}.\d+)$",
-            9: r"^(\-?\d+)[:; ](\d{2})[:; ](\d{2}.\d+)$",
-        }
+    # Any INDI number notation is accepted for any format: a peer may send
+    # sexagesimal text to a printf-formatted property and the other way round.
+    num_match = _SEXAGESIMAL_NUMBER.match(s)
+    if num_match:
+        sign, wholes, minutes, seconds = num_match.groups()
+        value = float(wholes) + (float(minutes) / 60) + (float(seconds or 0) / 3600)
+        # the sign applies to the whole magnitude, not to the degrees field
+        return -value if sign == "-" else value
 
-        num_match = re.match(regexps[fraction_length], s)
-        if not num_match:
+    s = s.strip()
+    try:
+        return int(s)
+    except ValueError:
+        try:
+            return float(s)
+        except ValueError:
             raise ValueError("Cannot convert string to number")
-        num_match_groups = num_match.groups()
-        wholes = num_match_groups[0]
-        minutes = num_match_groups[1]
-        seconds = num_match_groups[2] if fraction_length in (6, 8, 9) else 0
-
-        return float(wholes) + (float(minutes) / 60) + (float(seconds) / 3600)
-
-    if "." in s:
-        return float(s)
-
-    return int(s)
 
 
 def num_to_str(n: Optional[float], fmt: str) -> Optional[str]:
     if n is None:
         return None
 
-    sexagesimal_match = re.match(r"^%(\d*)\.(\d+)m$", fmt)
+    sexagesimal_match = _SEXAGESIMAL_FORMAT.match(fmt)
     if sexagesimal_match:
         fraction_length = int(sexagesimal_match.groups()[1])
-        assert fraction_length in (3, 5, 6, 8, 9)
+        assert fraction_length in _SEXAGESIMAL_UNITS
 
-        w = math.floor(n)
-        m = (n - w) * 60
+        # Same conventions as libindi's fs_sexa(): the magnitude is rounded to
+        # the resolution of the format first (so fields never reach 60) and the
+        # sign applies to the whole value.
+        units_per_whole = _SEXAGESIMAL_UNITS[fraction_length]
+        units = int(math.floor(abs(n) * units_per_whole + 0.5))
+        w, f = divmod(units, units_per_whole)
+        sign = "-" if n < 0 else ""
 
         if fraction_length == 3:
-            return f"{w}:{m:02.0f}"
+            return f"{sign}{w}:{f:02d}"
 
         if fraction_length == 5:
-            return f"{w}:{m:04.1f}"
-
-        mf = math.floor(m)
-        s = (m - mf) * 60
-        m = mf
+            return f"{sign}{w}:{f // 10:02d}.{f % 10:d}"
 
         if fraction_length == 6:
-            return f"{w}:{m:02d}:{s:02.0f}"
+            return f"{sign}{w}:{f // 60:02d}:{f % 60:02d}"
 
         if fraction_length == 8:
-            return f"{w}:{m:02d}:{s:04.1f}"
+            return f"{sign}{w}:{f // 600:02d}:{f % 600 // 10:02d}.{f % 10:d}"
 
         if fraction_length == 9:
-            return f"{w}:{m:02d}:{s:05.2f}"
+            return f"{sign}{w}:{f // 6000:02d}:{f % 6000 // 100:02d}.{f % 100:02d}"
 
     return fmt % n
